@@ -292,10 +292,14 @@ def run_jobs(ctx, jobs, workers=None):
     def run(bucket):
         payload = json.dumps({"jobs": [{k: v for k, v in jobs[i].items() if not k.startswith("_")} for i in bucket]})
         r = core.run_py(HARNESS, timeout=840, stdin=payload)
+        if r.returncode == 124:
+            # the time limit of the child, not an answer of the code under test (an overloaded machine): once more, with room
+            r = core.run_py(HARNESS, timeout=3000, stdin=payload)
         try:
             res = json.loads(r.stdout)["results"]
         except Exception:
-            res = [{"error": f"harness child failed rc={r.returncode}: {(r.stderr or r.stdout)[-400:]}"}] * len(bucket)
+            res = [{"error": f"harness child failed rc={r.returncode}: {(r.stderr or r.stdout)[-400:]}",
+                    "harness_failure": True}] * len(bucket)
         return bucket, res
     with ThreadPoolExecutor(max_workers=len(buckets)) as ex:
         for bucket, res in ex.map(run, buckets):
@@ -577,7 +581,9 @@ def check_sweeps(ctx, jobs, results):
     for idx, (j, r) in enumerate(zip(jobs, results)):
         case = {"kind": "sweep", "job": {k: v for k, v in j.items() if not k.startswith("_")}}
         if "error" in r:
-            ctx.fail("failing-input", f"save_cache of a valid cache failed outright: {r['error']}", case=case,
+            ctx.fail("correspondence" if r.get("harness_failure") else "failing-input",
+                     (f"the harness child gave no result ({r['error']})" if r.get("harness_failure") else
+                      f"save_cache of a valid cache failed outright: {r['error']}"), case=case,
                      signature="save-failed")
             continue
         events, pts = r["events"], r["points"]
@@ -693,7 +699,9 @@ def check_histories(ctx, jobs, results):
         pi += 1 + len(j["steps"])
         ctx.cov["evaluations"] += 1
         if "error" in r:
-            ctx.fail("failing-input", f"save_cache of a valid cache failed outright: {r['error']}", case=case,
+            ctx.fail("correspondence" if r.get("harness_failure") else "failing-input",
+                     (f"the harness child gave no result ({r['error']})" if r.get("harness_failure") else
+                      f"save_cache of a valid cache failed outright: {r['error']}"), case=case,
                      signature="save-failed")
             continue
         model = vals[idx]
@@ -1142,7 +1150,9 @@ def check_codec(ctx, jobs, results):
         case = {"kind": "codec", "job": {k: v for k, v in j.items() if not k.startswith("_")}}
         ctx.cov["evaluations"] += 1
         if "error" in r:
-            ctx.fail("failing-input", f"save_cache of a valid cache failed outright: {r['error']}", case=case,
+            ctx.fail("correspondence" if r.get("harness_failure") else "failing-input",
+                     (f"the harness child gave no result ({r['error']})" if r.get("harness_failure") else
+                      f"save_cache of a valid cache failed outright: {r['error']}"), case=case,
                      signature="save-failed")
             continue
         if pred is None:
@@ -1287,9 +1297,69 @@ def check_e2e(ctx, cases):
 
 # ----------------------------------------------------------------------------- check
 
+def check_failed_lookup(ctx):
+    """Directed: "never invented file information" on the error path of get_info.  A look-up that RAISES (the handler cannot
+    read an unfinished file; a path that does not fit the template) must leave no entry behind: the next look-up examines the
+    file again, and what is saved holds only information some look-up delivered."""
+    import datetime as _dt
+    from typhon.files import FileSet
+    from typhon.files.handlers import FileHandler, FileInfo
+    root = Path(tempfile.mkdtemp(prefix="verif_c15_fail_"))
+    try:
+        names = ["A_20180101_0000.dat", "B_20180101_0600.dat", "C_20180101_1200.dat"]
+        for n_ in names:
+            (root / n_).write_text("" if n_.startswith("B") else "ready")
+
+        def header(info, **kw):
+            if Path(info.path).read_text() == "":
+                raise ValueError("file is still being written")
+            h = int(Path(info.path).name[-8:-6])
+            return FileInfo(info.path, [_dt.datetime(2018, 1, 1, h, 1, 44, 125), _dt.datetime(2018, 1, 1, h + 5, 59, 59, 999999)], {"orbit": 100 + h})
+        # (no info_cache file: the in-memory cache is what is examined; an atexit save into the scratch directory is not wanted)
+        fs = FileSet(str(root / "{sat}_{year}{month}{day}_{hour}{minute}.dat"), handler=FileHandler(info=header), info_via="both")
+        pathB = str(root / names[1])
+        case = {"kind": "failed-lookup", "files": names, "unfinished": names[1]}
+        raised = None
+        try:
+            list(fs.find(no_files_error=False))
+        except Exception as e:  # noqa
+            raised = f"{type(e).__name__}: {e}"
+        ctx.cov["evaluations"] += 1
+        if pathB in fs.info_cache:
+            ent = fs.info_cache[pathB]
+            ctx.fail("failing-input", f"a look-up of {names[1]} that failed ({raised}) left an entry in the info cache: times "
+                     f"{getattr(ent, 'times', None)}, attributes {getattr(ent, 'attr', None)} - information no look-up delivered",
+                     case=case, signature="failed-lookup-leaves-entry")
+            return
+        (root / names[1]).write_text("ready")
+        try:
+            got = {Path(i.path).name: (i.times[0], i.times[1], dict(i.attr).get("orbit")) for i in fs.find(no_files_error=False)}
+        except Exception as e:  # noqa
+            ctx.fail("failing-input", f"find() after the unfinished file was completed raised {type(e).__name__}: {e}", case=case,
+                     signature="failed-lookup-then-find")
+            return
+        want = (_dt.datetime(2018, 1, 1, 6, 1, 44, 125), _dt.datetime(2018, 1, 1, 11, 59, 59, 999999), 106)
+        if got.get(names[1]) != want:
+            ctx.fail("failing-input", f"after a failed look-up and the completion of the file, find() reports {got.get(names[1])} for "
+                     f"{names[1]}, the handler says {want}", case=case, signature="failed-lookup-then-find")
+        # a path that does not fit the template: the exception is the answer, the cache stays as it is
+        before = set(fs.info_cache)
+        try:
+            fs.get_info(str(root / "not-a-file-of-this-set.txt"))
+        except Exception:  # noqa
+            pass
+        extra = set(fs.info_cache) - before
+        if extra:
+            ctx.fail("failing-input", f"get_info() of a path that does not fit the template left the entries {sorted(extra)} in the cache",
+                     case=case, signature="failed-lookup-leaves-entry")
+    finally:
+        shutil.rmtree(root, ignore_errors=True)
+
+
 def run(ctx):
     ctx.notes = []
     rng = ctx.rng
+    check_failed_lookup(ctx)
     # 1. every crash point of caches with 0..20 entries (both tiers), over several previous states
     variants = ["fresh", "old", "old+stale", "stale"]
     sweeps = []
